@@ -58,7 +58,7 @@
 //    File: "miniz_oxide/src/inflate/core.rs", line 2095, in inflate::core::decompress_with_limit
 //   
 //   VERIFICATION:- FAILED
-//   Verification Time: 3.8129048s
+//   Verification Time: 13.927499s
 //   
 //   Manual Harness Summary:
 //   Verification failed for - inflate::core::verif_inflate_core::k_prologue_done_forever
